@@ -365,7 +365,9 @@ def execute(case: dict) -> dict:  # noqa: C901, PLR0915
     async def main() -> None:
         for op in case["ops"]:
             loop.call_at(op["t"], do_op, op)
-        await asyncio.sleep(case["horizon"])
+        # every operation is issued, and every time-out armed by it can fire, before the final inspection
+        horizon = max([case["horizon"]] + [op["t"] + 11.0 for op in case["ops"]])
+        await asyncio.sleep(horizon)
         # liveness: whatever is still outstanding must not be past its deadline (+ lateness bound)
         now = loop.time()
         slack = case["knobs"].get("timer_jitter", 0.0) * 3 + 0.01
